@@ -98,6 +98,56 @@ def make_rule(rid, select, what):
 
 
 
+def make_tile_rule(rid, select, what):
+    """`for j0 in (0..n).step_by(T) { let j1 = min(j0 + T, n); .. }`: the end of a tile is its own start plus the tile length.
+    Computed from the *enclosing* loop's start (`min(i0 + T, n)`) it is right for the tiles on the diagonal - all there is
+    when n <= T - and leaves the others empty or too long."""
+    def rule(ctx):
+        from .c17 import for_loops
+        res = RuleResult(rid, "in tiled loops of %s the end of a tile is computed from that tile's start" % what)
+        F = ctx.facts()
+        n_fns = n_loops = 0
+        for fn in F.all_fns():
+            if not select(fn) or fn.get("exp") or "tests" in fn["d"]["path"]:
+                continue
+            n_fns += 1
+            c = fn["crate"]
+            r = Render(c)
+            key = fn_key(fn)
+            stepped = []
+            for it, pat, body, node in for_loops(fn["body"]):
+                st = next((y for y in walk(it) if y.get("k") == "MethodCall" and y["name"] == "step_by" and y["args"]), None)
+                ids = [b["local"] for b in pat_bindings(pat)]
+                if st is not None and len(ids) == 1:
+                    stepped.append((ids[0], r.e(peel_refs(st["args"][0])), body, node))
+            starts = {s_[0] for s_ in stepped}
+            for vid, step, body, node in stepped:
+                n_loops += 1
+                res.instance("%s : tiled loop (line %s)" % (key, node.get("ln")))
+                b0 = strip(body)
+                bad = None
+                for st_ in (b0.get("stmts") or []) if b0.get("k") == "Block" else []:
+                    if st_.get("k") != "LetStmt" or st_.get("init") is None:
+                        continue
+                    for y in walk(st_["init"]):
+                        if y.get("k") == "Binary" and y["op"] == "+" and step in (r.e(peel_refs(y["l"])), r.e(peel_refs(y["r"]))):
+                            other = peel_refs(y["l"]) if r.e(peel_refs(y["r"])) == step else peel_refs(y["r"])
+                            if other.get("k") == "Path" and other.get("local") in starts and other["local"] != vid and not any(z.get("k") == "Path" and z.get("local") == vid for z in walk(st_["init"])):
+                                bad = (st_, other)
+                if bad:
+                    res.violate("%s : tile-end-from-other-loop" % key, "`%s`: the end of this loop's tile is computed from `%s`, the start of the enclosing loop's tile: right on the diagonal only (all there is when the data fits one tile)" % (r.e(bad[0]["init"])[:50], bad[1].get("name")), fn_loc(fn, bad[0].get("ln")))
+                else:
+                    res.ok()
+        res.instance("%d functions scanned, %d tiled loops" % (n_fns, n_loops))
+        if n_fns:
+            res.ok()
+        else:
+            res.missing_anchor("functions of %s" % what)
+        return res.finish(1)
+    rule.__name__ = "rule_" + rid.replace("-", "_")
+    return rule
+
+
 def make_offset_rule(rid, select, what):
     """Work done block by block writes block b at offset b * BLOCK: the *nominal* block length.  `b * block.len()` is the same
     number for every full block and a smaller one for a short last block, whose results then land on top of earlier rows
